@@ -142,7 +142,7 @@ def run(c, chk):
                                  '%s() writes to %s through %s()' % (f.name, org[1:], n))
                 else:
                     chk.ok('R2.1b', '%s:%s' % (c.where(call), n), 'stream is %s' % org.lstrip('@'))
-    chk.floor('R2.1b stream-writer call sites', nsites, 20)
+    chk.floor('R2.1b stream-writer call sites', nsites, 12)
 
     # ---- R2.2 ----------------------------------------------------------------
     allow = load_allow('terminators.allow.json')
@@ -686,7 +686,7 @@ def loop_progress(c, chk, reach):
             else:
                 chk.fail('R2.6', 'loop:%s:%s' % (f.name, loop_signature(f, h, body)), c.where(f, f.blocks[h].first_line()),
                          'loop in %s() has no recognised progress step (token consumption, induction variable, list advance)' % f.name)
-    chk.floor('R2.6 loops on the parse path', nloops, 20)
+    chk.floor('R2.6 loops on the parse path', nloops, 14)
 
 
 def must_call_before_return(g, callee):
